@@ -36,6 +36,8 @@ FIELDS = [
     "{a:>\n3}", "{a:x\ny}", "{a:{w}\n}", "{a:\n{w}}", "{a:>\\\n3}", "{a!r:>\n}",
     # a debug field that goes on over the end of the line
     "{a=\n}", "{a = \n!r}", "{a=\n:>3}", "{a\n=}", "{a=!r\n}", "{a # c\n=}", "{'#' + a=}",
+    # fields nested in format specs two, three and four levels deep (CPython: two are fine, then 'nested too deeply')
+    "{a:{w:{p}}}", "{a:{w:{p:{q}}}}", "{a:x{w:y{p}z}}", "{a:{w!r:{p}}}", "{a! r}", "{a !r}", "{a!\nr}",
 ]
 ADJ = ["'s' {F}", "{F} 's'", "{F} {F}", "{F} {G}", "f({F}, {{}})", "x = {F}; y = {{1: 2}}", "{F} if a else {{}}", "b'x' {F}", "{F}\n{G}\n", "({F}\n 's'\n 't')",
        "print({F}, {G}, sep='{{')", "[{F} for a in {{1}}]", "p{F}", "{F}.format(1)", "u's' {F}", "r's' {F}"]
@@ -89,6 +91,22 @@ def light_cases() -> Iterator[str]:
                 for l1 in LITERALS[:4]:
                     for l2 in LITERALS[:4]:
                         yield f"{pre}{q}{_lit(l1, q)}{f0}{_lit(l2, q)}{q}\n"
+
+
+
+def blank_insertions() -> Iterator[str]:
+    """Every field form in two quote styles with a blank, a tab or a line end inserted at every position of the f-string:
+    where blanks are not allowed inside a replacement field (after '!', inside ':=' ...) CPython rejects the text."""
+    seen: set[str] = set()
+    for f0 in FIELDS:
+        for q in ("'", '"""'):
+            t = f"f{q}x{f0}y{q}\n"
+            for k in range(1 + len(q), len(t) - len(q) - 1):
+                for ins in (" ", "\n", "\t", "\\\n"):
+                    u = t[:k] + ins + t[k:]
+                    if u not in seen:
+                        seen.add(u)
+                        yield u
 
 
 def _lit(l: str, quote: str) -> str:
